@@ -262,6 +262,68 @@ fn to_pixels(xs: &[f32]) -> Vec<[f32; 3]> {
 const CLASS_REPS: [u8; 10] = [1, 4, 5, 8, 9, 10, 11, 13, 16, 18];
 const ALIASES: [u8; 5] = [1, 6, 7, 14, 15];
 
+/// near-black pixels whose channels differ slightly (achromatic shortcuts, per-pixel vs per-component paths)
+fn mixed_near_black() -> Vec<[f32; 3]> {
+    let mut v = Vec::new();
+    for e in 0..24 {
+        let t = 2f32.powi(-30 + e);
+        v.push([0.0, t, 2.0 * t]);
+        v.push([t, 0.0, 0.5 * t]);
+        v.push([t, t * 1.000_001, t]);
+        v.push([1.0 - t, 1.0, 1.0 - 2.0 * t]);
+    }
+    v
+}
+
+/// a frame of >= 2^20 samples: interesting values at both ends, random fill with a near-black admixture;
+/// returns (pixels, w, h, probe positions)
+fn big_frame(o: &Opts, rng: &mut Rng, k: usize) -> (Vec<[f32; 3]>, usize, usize, Vec<usize>) {
+    let (w, h) = [(701usize, 523usize), (1031, 347), (523, 701)][k % 3];
+    let n = w * h;
+    let mut head = to_pixels(&base_inputs(o, rng));
+    head.extend(mixed_near_black());
+    let mut px: Vec<[f32; 3]> = Vec::with_capacity(n);
+    px.extend(head.iter().copied());
+    while px.len() < n - head.len() {
+        let f = |r: &mut Rng| if r.below(5) == 0 { 2f64.powf(r.range(-30.0, -8.0)) as f32 } else { r.unit() as f32 };
+        px.push([f(rng), f(rng), f(rng)]);
+    }
+    px.extend(head.iter().rev().copied());
+    px.truncate(n);
+    let mut idx: std::collections::BTreeSet<usize> = crate::util::probe_indices(n, w, rng).into_iter().collect();
+    // every 3rd interesting pixel at the head, every 3rd at the tail
+    for i in (0..head.len()).step_by(5) {
+        idx.insert(i);
+        idx.insert(n - 2 - i);
+    }
+    (px, w, h, idx.into_iter().collect())
+}
+
+fn emit_tf_probe(sh: &mut Shards, ev: &str, t: u8, dir: &str, px: &[[f32; 3]], w: usize, h: usize, idx: &[usize], res: Result<Vec<[f32; 3]>, &'static str>) {
+    let sel: Vec<[f32; 3]> = idx.iter().map(|&i| px[i]).collect();
+    let mut s = String::new();
+    let _ = write!(s, "\"ev\":\"{ev}\",\"probe\":1,\"tc\":{t},\"dir\":\"{dir}\",\"w\":{w},\"h\":{h},\"x\":");
+    list(&mut s, &sel, px_fx);
+    match res {
+        Ok(out) => {
+            let o2: Vec<[f32; 3]> = idx.iter().map(|&i| out[i]).collect();
+            let key = if ev == "tfrt" { "z" } else { "y" };
+            let _ = write!(s, ",\"res\":\"ok\",\"{key}\":");
+            list(&mut s, &o2, px_fx);
+            if t == 8 && ev == "tf" {
+                s.push_str(",\"xb\":");
+                list(&mut s, &sel, px_bits);
+                s.push_str(",\"yb\":");
+                list(&mut s, &o2, px_bits);
+            }
+        }
+        Err(e) => {
+            let _ = write!(s, ",\"res\":\"{e}\"");
+        }
+    }
+    sh.emit(&s);
+}
+
 pub fn gen_c03(sh: &mut Shards, o: &Opts) -> serde_json::Value {
     let mut samples = 0u64;
     let mut swept = 0u64;
@@ -274,7 +336,8 @@ pub fn gen_c03(sh: &mut Shards, o: &Opts) -> serde_json::Value {
             xs.extend(w);
             swept += s;
             pairs += 1;
-            let px = to_pixels(&xs);
+            let mut px = to_pixels(&xs);
+            px.extend(mixed_near_black());
             samples += 3 * px.len() as u64;
             for (at, w, h) in cut_images(px.len(), ti + di) {
                 let img = &px[at..at + w * h];
@@ -300,38 +363,32 @@ pub fn gen_c03(sh: &mut Shards, o: &Opts) -> serde_json::Value {
             }
         }
     }
-    // large images (position-dependent code paths), probed
+    // large frames (size-dependent code paths: tables, threads, vector loops).  The interesting VALUES (branch points,
+    // near-black ladders, mixed near-black pixels) are placed inside the big frame, at both ends; the rest is random
+    // with a near-black admixture.  Only the probed positions are handed to TLC.
     for (ti, &t) in CLASS_REPS.iter().enumerate() {
         for (di, dir) in ["lin", "gam"].iter().enumerate() {
-            if (ti + di) % 3 != 0 {
+            let mut rng = Rng::new(o.seed, 0x0303_b160 + (ti * 2 + di) as u64);
+            let (px, w, h, idx) = big_frame(o, &mut rng, ti + di);
+            emit_tf_probe(sh, "tf", t, dir, &px, w, h, &idx, apply(t, dir, &px, w, h));
+            samples += 3 * idx.len() as u64;
+        }
+    }
+    // call-order histories on one thread: a large frame through curve a, then a large frame through curve b (every ordered
+    // pair of curve classes, both directions); b is judged.  State that survives a call (caches, tables) shows here.
+    for (ai, &a) in CLASS_REPS.iter().enumerate() {
+        for (bi, &b) in CLASS_REPS.iter().enumerate() {
+            if a == b || (!o.thorough && (ai + 2 * bi + (o.seed as usize)) % 3 != 0) {
                 continue;
             }
-            let mut rng = Rng::new(o.seed, 0x0303_b160 + (ti * 2 + di) as u64);
-            let (w, h) = crate::util::BIG;
-            let px: Vec<[f32; 3]> = (0..w * h).map(|_| [rng.unit() as f32, rng.unit() as f32, rng.unit() as f32]).collect();
-            let idx = crate::util::probe_indices(w * h, w, &mut rng);
-            let sel: Vec<[f32; 3]> = idx.iter().map(|&i| px[i]).collect();
-            let mut s = String::new();
-            let _ = write!(s, "\"ev\":\"tf\",\"probe\":1,\"tc\":{t},\"dir\":\"{dir}\",\"w\":{w},\"h\":{h},\"x\":");
-            list(&mut s, &sel, px_fx);
-            match apply(t, dir, &px, w, h) {
-                Ok(out) => {
-                    let o2: Vec<[f32; 3]> = idx.iter().map(|&i| out[i]).collect();
-                    s.push_str(",\"res\":\"ok\",\"y\":");
-                    list(&mut s, &o2, px_fx);
-                    if t == 8 {
-                        s.push_str(",\"xb\":");
-                        list(&mut s, &sel, px_bits);
-                        s.push_str(",\"yb\":");
-                        list(&mut s, &o2, px_bits);
-                    }
-                }
-                Err(e) => {
-                    let _ = write!(s, ",\"res\":\"{e}\"");
-                }
+            for (di, dir) in ["lin", "gam"].iter().enumerate() {
+                let mut rng = Rng::new(o.seed, 0x0303_c000 + (ai * 40 + bi * 2 + di) as u64);
+                let (px, w, h, idx) = big_frame(o, &mut rng, 0);
+                let _ = apply(a, dir, &px, w, h);
+                let few: Vec<usize> = idx.iter().copied().step_by(13).collect();
+                emit_tf_probe(sh, "tf", b, dir, &px, w, h, &few, apply(b, dir, &px, w, h));
+                samples += 3 * few.len() as u64;
             }
-            sh.emit(&s);
-            samples += 3 * idx.len() as u64;
         }
     }
     // aliases of BT.1886: bit-identical results on a shared input set (both directions)
@@ -395,27 +452,25 @@ pub fn gen_c10(sh: &mut Shards, o: &Opts) -> serde_json::Value {
             sh.emit(&s);
         }
     }
-    for (ti, &t) in TC_SUP.iter().enumerate().filter(|(i, _)| i % 3 == 1) {
+    for (ti, &t) in TC_SUP.iter().enumerate() {
         let mut rng = Rng::new(o.seed, 0x1010_b160 + ti as u64);
-        let (w, h) = crate::util::BIG;
-        let px: Vec<[f32; 3]> = (0..w * h).map(|_| [rng.unit() as f32, rng.unit() as f32, rng.unit() as f32]).collect();
-        let idx = crate::util::probe_indices(w * h, w, &mut rng);
-        let sel: Vec<[f32; 3]> = idx.iter().map(|&i| px[i]).collect();
-        let mut s = String::new();
-        let _ = write!(s, "\"ev\":\"tfrt\",\"probe\":1,\"tc\":{t},\"w\":{w},\"h\":{h},\"x\":");
-        list(&mut s, &sel, px_fx);
-        match apply(t, "lin", &px, w, h).and_then(|m| apply(t, "gam", &m, w, h)) {
-            Ok(out) => {
-                let o2: Vec<[f32; 3]> = idx.iter().map(|&i| out[i]).collect();
-                s.push_str(",\"res\":\"ok\",\"z\":");
-                list(&mut s, &o2, px_fx);
-            }
-            Err(e) => {
-                let _ = write!(s, ",\"res\":\"{e}\"");
-            }
-        }
-        sh.emit(&s);
+        let (px, w, h, idx) = big_frame(o, &mut rng, ti);
+        emit_tf_probe(sh, "tfrt", t, "rt", &px, w, h, &idx, apply(t, "lin", &px, w, h).and_then(|m| apply(t, "gam", &m, w, h)));
         samples += 3 * idx.len() as u64;
+    }
+    // call-order histories: a large round trip through curve a, then through curve b; b is judged
+    for (ai, &a) in CLASS_REPS.iter().enumerate() {
+        for (bi, &b) in CLASS_REPS.iter().enumerate() {
+            if a == b || (!o.thorough && (ai + 2 * bi + (o.seed as usize)) % 3 != 1) {
+                continue;
+            }
+            let mut rng = Rng::new(o.seed, 0x1010_c000 + (ai * 40 + bi) as u64);
+            let (px, w, h, idx) = big_frame(o, &mut rng, 0);
+            let _ = apply(a, "lin", &px, w, h).and_then(|m| apply(a, "gam", &m, w, h));
+            let few: Vec<usize> = idx.iter().copied().step_by(13).collect();
+            emit_tf_probe(sh, "tfrt", b, "rt", &px, w, h, &few, apply(b, "lin", &px, w, h).and_then(|m| apply(b, "gam", &m, w, h)));
+            samples += 3 * few.len() as u64;
+        }
     }
     serde_json::json!({"samples": samples, "swept_by_screen": swept, "curves": TC_SUP.len(), "distinct": samples})
 }
